@@ -364,16 +364,25 @@ func (c *Conn) WaitIdle() bool {
 		}
 	}
 	if c.tlsC != nil {
-		c.mu.Lock()
-		eof := c.tlsEOF
-		c.mu.Unlock()
-		if !eof {
-			if !c.Raw.WaitIdle(IdleTimeout, nil) {
+		// the decrypting reader must have caught up: it is either parked on an
+		// empty queue or has seen the end of the stream
+		dl := time.Now().Add(IdleTimeout)
+		for {
+			c.mu.Lock()
+			eof := c.tlsEOF
+			c.mu.Unlock()
+			if eof {
+				return true
+			}
+			if c.Raw.WaitIdle(5*time.Millisecond, nil) {
+				break
+			}
+			if time.Now().After(dl) {
 				return false
 			}
-			// Once more for the server: decrypting may have produced alerts.
-			return c.SrvEnd.WaitIdle(IdleTimeout, extra)
 		}
+		// Once more for the server: decrypting may have produced alerts.
+		return c.SrvEnd.WaitIdle(IdleTimeout, extra)
 	}
 	return true
 }
